@@ -8,6 +8,7 @@ pub mod c19;
 pub mod common;
 pub mod dirprops;
 pub mod fsprops;
+pub mod sdprops;
 
 pub fn run(id: &str, tier: &str) -> i32 {
     let st = crate::selftest::run(false);
@@ -45,6 +46,9 @@ pub fn run(id: &str, tier: &str) -> i32 {
             rep.cov("rule", serde_json::json!("every transition of the history BFS is re-executed once per device call with that call failing; non-trivial = distinct (history, operation) transitions that issue at least one device call"));
             rep.finish()
         }
+        "C12" => sdprops::run_c12(tier),
+        "C13" => sdprops::run_c13(tier),
+        "C14" => sdprops::run_c14(tier),
         "C15" => c15::run(tier),
         "C17" => c17::run(tier),
         "C18" => c18::run(tier),
@@ -118,6 +122,7 @@ pub fn replay(path: &str) -> i32 {
 fn replay_input(id: &str, _inp: &serde_json::Value) -> i32 {
     match id {
         "C06" => dirprops::replay_input_c06(_inp),
+        "C12" | "C13" | "C14" => sdprops::replay_input(_inp),
         "C15" => c15::replay_input(_inp),
         "C17" => c17::replay_input(_inp),
         "C18" => c18::replay_input(_inp),
